@@ -261,6 +261,7 @@ func registerTiKV(e *Engine) {
 		return storeOf(c[0])
 	}
 	begin := func(in *interp, st *tkStore) value {
+		in.sch.yield("tikv:begin")
 		st.ts++
 		return tuple{box(&tkTxn{st: st, startTS: st.ts, snap: append([]tkEnt(nil), st.ents...)}), iface{}}
 	}
@@ -323,6 +324,7 @@ func registerTiKV(e *Engine) {
 		if len(t.buf) == 0 {
 			return iface{}
 		}
+		in.sch.yield("tikv:commit")
 		st := t.st
 		for _, w := range t.buf {
 			if i, ok := in.tkFind(st.ents, w.key); ok && st.ents[i].ts > t.startTS {
